@@ -287,11 +287,12 @@ def addrOffset (ss : List Stmt) (v : Value) : Outcome Value :=
   match v with
   | .expr l r op _ _ =>
     let other := if l.isAddress then r else l
-    let addOf : Outcome Nat :=                    -- the other operand: a label's address, a number, else "unresolved expression"
+    let addOf : Outcome Int :=                    -- the other operand: a label's address, a (signed) number, else "unresolved expression"
       if other.isAddress then (match other.int? with
-                               | some j => (match addrIntOf ss j with | some x => .ok x | none => .internal)
+                               | some j => (match addrIntOf ss j with | some x => .ok (x : Int) | none => .internal)
                                | none => .internal)
-      else if other.isNumeric then (match other.int? with | some n => .ok n | none => .internal)
+      else if other.isNumeric then (match other.int? with
+                                    | some n => .ok (if other.isNegative then -(n : Int) else n) | none => .internal)
       else .diag
     match (if l.isAddress then l.int? else r.int?), addOf with
     | _, .diag => .diag
@@ -301,7 +302,7 @@ def addrOffset (ss : List Stmt) (v : Value) : Outcome Value :=
       | some a =>
         let z : Option Int :=
           if op == '+' then some ((a : Int) + add) else if op == '-' then some (((a : Int) - add) % 65536)
-          else if op == '*' then some ((a : Int) * add) else (if add = 0 then none else some ((a / add : Nat) : Int))
+          else if op == '*' then some ((a : Int) * add) else (if add = 0 then none else some (Int.tdiv (a : Int) add))
         match z with
         | none => .diag                                          -- ZeroDivisionError, reported as a TranslationError
         | some z => (match numericOfInt z (some 4) .extended with | .ok nv => .ok nv | .error _ => .diag)
@@ -360,6 +361,8 @@ def fixOne (ss : List Stmt) (i : Nat) (s : Stmt) : Outcome Stmt :=
             | .ok r, some start =>
               let jump : Int := (r : Int) - start - s2.pkg.size
               let jump : Int := (jump + 0x8000) % 0x10000 - 0x8000      -- signed distance modulo 65536 (fix ec1693d)
+              if s2.pcrHint ≠ 4 ∧ (jump < -128 ∨ jump > 127) then .diag   -- "out of range of the 8-bit offset" (a later ORG in between)
+              else
               let jump : Int := if s2.pcrHint = 4 then jump % 0x10000 else jump
               (match numericOfInt jump (some s2.pcrHint) .none with
                | .ok v => .ok { s2 with pkg := { s2.pkg with additional := v } }
